@@ -575,13 +575,12 @@ impl<'a> KMergeIterator<'a> {
 					if table.is_before_range(&query_range) || table.is_after_range(&query_range) {
 						continue;
 					}
-					// Skip tables outside timestamp range (if specified)
-					if let Some((ts_start, ts_end)) = ts_range {
-						let props = &table.meta.properties;
-						if let (Some(newest), Some(oldest)) =
-							(props.newest_key_time, props.oldest_key_time)
-						{
-							if newest < ts_start || oldest > ts_end {
+					// Skip tables that only hold versions older than the timestamp range.
+					// Tables that are entirely NEWER than the range must still be read: a
+					// hard delete or a replace in them erases older versions inside the range.
+					if let Some((ts_start, _ts_end)) = ts_range {
+						if let Some(newest) = table.meta.properties.newest_key_time {
+							if newest < ts_start {
 								continue;
 							}
 						}
@@ -599,13 +598,12 @@ impl<'a> KMergeIterator<'a> {
 				let end_idx = level.find_last_overlapping_table(&query_range);
 
 				for table in &level.tables[start_idx..end_idx] {
-					// Skip tables outside timestamp range (if specified)
-					if let Some((ts_start, ts_end)) = ts_range {
-						let props = &table.meta.properties;
-						if let (Some(newest), Some(oldest)) =
-							(props.newest_key_time, props.oldest_key_time)
-						{
-							if newest < ts_start || oldest > ts_end {
+					// Skip tables that only hold versions older than the timestamp range.
+					// Tables that are entirely NEWER than the range must still be read: a
+					// hard delete or a replace in them erases older versions inside the range.
+					if let Some((ts_start, _ts_end)) = ts_range {
+						if let Some(newest) = table.meta.properties.newest_key_time {
+							if newest < ts_start {
 								continue;
 							}
 						}
@@ -1471,33 +1469,6 @@ impl<'a> HistoryIterator<'a> {
 		Ok(false)
 	}
 
-	/// With ts_range, seek to (next_user_key, ts_end) to skip entries above range.
-	/// Without ts_range, linearly scan past entries with the same user_key.
-	/// Returns true if positioned on a new user_key, false if iterator exhausted.
-	fn advance_to_next_user_key(&mut self) -> Result<bool> {
-		// Only optimize with ts_range
-		let ts_end = match self.ts_range {
-			Some((_, end)) => end,
-			None => return self.skip_to_next_user_key(),
-		};
-
-		let current = self.current_user_key.clone();
-
-		// Advance to find next user_key
-		while self.inner_valid() {
-			let next_key_vec = self.inner_key().user_key().to_vec();
-			if next_key_vec != current {
-				// Found next key - seek to (next_key, ts_end) to skip entries above range
-				let seek_key =
-					InternalKey::new(next_key_vec, u64::MAX, InternalKeyKind::Set, ts_end);
-				self.inner.seek(&seek_key.encode())?;
-				return Ok(self.inner_valid());
-			}
-			self.inner_next()?;
-		}
-		Ok(false)
-	}
-
 	// --- Bounds checking ---
 	// KMergeIterator handles bounds via InternalKeyRange, but upper_bound
 	// is still needed for the merged bplustree path where the bplustree
@@ -1582,23 +1553,9 @@ impl<'a> HistoryIterator<'a> {
 				continue;
 			}
 
-			// Skip entries outside timestamp range
-			if let Some((ts_start, ts_end)) = self.ts_range {
-				if timestamp > ts_end {
-					// Above range - skip, next entries might be in range
-					self.inner_next()?;
-					continue;
-				}
-				if timestamp < ts_start {
-					// Below range - all remaining entries for this key are also below
-					// (timestamps are ordered descending within a key).
-					// Skip to next user_key with optimization for B+tree.
-					if !self.advance_to_next_user_key()? {
-						return Ok(false);
-					}
-					continue;
-				}
-			}
+			// NOTE: the timestamp range is applied further down, after the barrier rules.
+			// A hard delete or a replace erases everything older than itself whether or
+			// not it lies inside the queried range, so it must be seen here first.
 
 			// First visible entry → check for HARD_DELETE as latest
 			if !self.first_visible_seen {
@@ -1639,6 +1596,23 @@ impl<'a> HistoryIterator<'a> {
 			if !self.include_tombstones && is_tombstone {
 				self.inner_next()?;
 				continue;
+			}
+
+			// Rule 6: entries outside the timestamp range
+			if let Some((ts_start, ts_end)) = self.ts_range {
+				if timestamp > ts_end {
+					// Above range - skip, older entries might be in range
+					self.inner_next()?;
+					continue;
+				}
+				if timestamp < ts_start {
+					// Below range - all remaining entries for this key are also below
+					// (timestamps are ordered descending within a key).
+					if !self.skip_to_next_user_key()? {
+						return Ok(false);
+					}
+					continue;
+				}
 			}
 
 			// Found valid entry - increment counter
@@ -1695,6 +1669,7 @@ impl<'a> HistoryIterator<'a> {
 			is_hard_delete: bool,
 			is_replace: bool,
 			is_tombstone: bool,
+			in_ts_range: bool,
 			encoded_key: Vec<u8>,
 			value: Vec<u8>,
 		}
@@ -1717,11 +1692,14 @@ impl<'a> HistoryIterator<'a> {
 				None => true,
 			};
 
-			if visible && in_ts_range {
+			// Versions outside the timestamp range are collected too: a hard delete or a
+			// replace erases everything older whether or not it lies in the queried range.
+			if visible {
 				versions.push(VersionInfo {
 					is_hard_delete: key_ref.is_hard_delete_marker(),
 					is_replace: key_ref.is_replace(),
 					is_tombstone: key_ref.is_tombstone(),
+					in_ts_range,
 					encoded_key: key_ref.encoded().to_vec(),
 					value: self.inner_value()?.to_vec(),
 				});
@@ -1777,6 +1755,11 @@ impl<'a> HistoryIterator<'a> {
 
 			// Tombstone filtering
 			if !self.include_tombstones && v.is_tombstone {
+				continue;
+			}
+
+			// Timestamp range filtering (after the barrier has been applied)
+			if !v.in_ts_range {
 				continue;
 			}
 
@@ -1904,17 +1887,7 @@ impl LSMIterator for HistoryIterator<'_> {
 		self.direction = MergeDirection::Forward;
 		self.reset_all_state();
 
-		if self.ts_range.is_some() {
-			// Seek to (lower_bound or empty, ts_end) to skip entries above range
-			let ts = self.ts_range.map(|(_, end)| end).unwrap_or(u64::MAX);
-			let seek_key = InternalKey::new(
-				self.lower_bound.clone().unwrap_or_default(),
-				u64::MAX,
-				InternalKeyKind::Set,
-				ts,
-			);
-			self.inner.seek(&seek_key.encode())?;
-		} else if let Some(ref lower) = self.lower_bound {
+		if let Some(ref lower) = self.lower_bound {
 			let seek_key =
 				InternalKey::new(lower.clone(), u64::MAX, InternalKeyKind::Set, u64::MAX);
 			self.inner.seek(&seek_key.encode())?;
